@@ -20,8 +20,11 @@ func (c *Conn) handleAuthenticate(tag string, dec *imapwire.Decoder) error {
 
 	var initialResp []byte
 	if dec.SP() {
+		// The initial response is base64 or "=": read it as an atom rather
+		// than as text, which would swallow anything up to the end of the
+		// line, including the header of a non-synchronizing literal
 		var initialRespStr string
-		if !dec.ExpectText(&initialRespStr) {
+		if !dec.ExpectAtom(&initialRespStr) {
 			return dec.Err()
 		}
 		var err error
